@@ -368,3 +368,23 @@ package lang
 //@   at store Variables#3 assert !bit(flags, F_FUNCTION) && fork.Variables == p.Variables
 //@   at store Scope#1 assert bit(flags, F_FUNCTION) && fork.Scope == fork.Process
 //@   at store Scope#2 assert !bit(flags, F_FUNCTION) && fork.Scope == p.Scope
+
+// ---- C23: binding the parameters of a murex function (castParameters) ----------------------------------
+// For the i-th declared parameter (i = $idx): what is converted is the i-th supplied argument if there
+// is one, else the declared default (only for an optional parameter that has one); it is converted to
+// the DECLARED type; the variable set is the DECLARED name with the converted value and declared
+// type; nothing is set for a missing optional parameter without default; a failed conversion returns
+// an error straight away (so the caller - executeProcess, C22 - does not run the body).
+// The interactive prompt for a missing mandatory parameter (trusted: terminal I/O only).
+//@ func (*MurexFuncParam).promptParameters [C23] trusted
+//@   modifies nothing
+
+//@ func (*murexFuncDetails).castParameters [C23 C19]
+//@   check index, nil
+//@   requires mfd != nil && p != nil && p.Variables != nil
+//@   loop 1 invariant mfd.Parameters == old(mfd.Parameters) && p.Variables != nil
+//@   at call ConvertGoType#1 assert typeis(arg0, string) && arg1 == mfd.Parameters[$idx].DataType
+//@   at call ConvertGoType#1 assert imp($idx < len(p.Parameters.params), unbox(arg0, string) == p.Parameters.params[$idx])
+//@   at call ConvertGoType#1 assert imp($idx >= len(p.Parameters.params) && mfd.Parameters[$idx].Optional, mfd.Parameters[$idx].HasDefault && unbox(arg0, string) == mfd.Parameters[$idx].Default)
+//@   at call (*Variables).Set#1 assert arg2 == mfd.Parameters[$idx].Name && arg3 == v && arg4 == mfd.Parameters[$idx].DataType && errǂ2 == nil
+//@   ensures imp(result == nil, true)
